@@ -7,6 +7,7 @@ import DimodProofs.CqmClosed
 import DimodProofs.DqmClosed
 import DimodProofs.CqmDomain
 import DimodProofs.ZipStrict
+import DimodProofs.ZipTrunc
 
 /-! # C10 — a truncated model file never loads as a different model -/
 
@@ -526,5 +527,58 @@ theorem loader_repairs_from_source_r8 :
 example : (ZEntry.mk [118] [1, 2, 3] [1, 2, 3] 0 0 20 20 0 0 0 3 3 [] [] 0 0).LocalOK ∧
     (ZEntry.mk [111] [1, 2, 3] [1, 2, 3] 0 0 45 45 0 0 0 4294967295 4294967295
       ([1, 0, 16, 0] ++ toLE 8 3 ++ toLE 8 3) [] 0 0).LocalOK := by decide
+
+/-! ## round 8: the general statement — every proper prefix is refused, whatever the payload -/
+
+/-- **every proper prefix of a written archive file is refused by the repaired opener, WHATEVER THE PAYLOAD.**  For any bytes
+    `pre` (the dimod header) followed by the archive `zipfile` appends for any non-empty list of members `front ++ [zl]` —
+    any contents: end records, directories, whole archives with cover members spelled by the biases — the model of
+    `_open_archive` (as coded after `patches/cqm-archive-local-headers.diff`: `_EndRecData` with its backward search,
+    `start_dir` / `concat`, the directory loop, sort by offset, the walk over the local headers, `pos == start_dir`) returns
+    `none` (raises) on the first `k` bytes, for every `k` below the file length.  No side condition on where the end-record
+    signature occurs.  Assumed: what the writer guarantees of each member (`ZEntry.OK`; `LocalOK`: the local header records
+    the size of the data, evaluated by the driver on every generated file) and that the name / directory extra of the LAST
+    member holds no byte `0x06` (names are ASCII JSON text; the extra is empty below 4 GiB).
+    Proof: the walk ends at `start_dir` inside the prefix, so it is a walk on the complete file; there the directory cannot
+    lie (`local_header_check_directory_cannot_lie`), so `start_dir` is the boundary after the first `m` real members; for
+    `m` below the member count the bytes there are a local header, not a directory record (nor, for an empty directory, an
+    end record); for `m` = all members the directory read is the real one cut short, whose `n` records reach into the last
+    name, where no end-record signature can start. -/
+theorem truncation_safe_archive_any_payload (crc32 : Bytes → Nat) (inflate : Bytes → Option Bytes) (pre : Bytes) (front : List ZEntry)
+    (zl : ZEntry) (hz : ∀ z ∈ front ++ [zl], z.OK crc32 inflate) (hl : ∀ z ∈ front ++ [zl], z.LocalOK)
+    (h6 : (6 : UInt8) ∉ zl.name ++ zl.cextra) (k : Nat) (hk : k < (pre ++ zipBytes pre.length (front ++ [zl])).length) :
+    openTiledStrict crc32 inflate pre.length ((pre ++ zipBytes pre.length (front ++ [zl])).take k) = none :=
+  openTiledStrict_prefix_none crc32 inflate pre front zl hz hl h6 k hk
+
+/-- **CQM files cut at any byte offset, the repaired loader, ANY payload — closed**: for every CQM source `s` (no domain
+    condition on biases, bounds, weights: they are payload) every proper prefix of the bytes `to_file` writes (`dumpCqm`)
+    makes the modelled `from_file` — `read_header`, version test, `_open_archive` at the position the header reader stopped
+    at, members, decoding, header check (`cqmFileLoadTiled`) — raise.  This is `truncation_safe_cqm_closed` WITHOUT its
+    signature side condition, for the loader dimod has after the round-8 repair.  Hypotheses: the header dictionary fits its
+    length field (`hlen`), the archive has a last member (`hsplit`; `to_file` always writes `varinfo` and `objective`), the
+    members are as the writer writes them (`hz`, `hl`), the last member's name has no byte `0x06` (`h6`), and the 64-byte
+    aligned header itself (prefix, version, length, ASCII JSON text, spaces) does not contain the end-record signature
+    (`hhdr`; a Boolean check, `sigOnlyAtEnd`-style, evaluated by the harness on every generated header). -/
+theorem truncation_safe_cqm_tiled (crc32 : Bytes → Nat) (inflate : Bytes → Option Bytes) (deflate : Option (Bytes → Bytes)) (μ : Nat → ZMeta)
+    (s : CqmSrc) (front : List ZEntry) (zl : ZEntry)
+    (hlen : (dumpsDict (cqmCountsDict (cqmCounts s.content.erase))).length + 65 < 2 ^ 32)
+    (hsplit : mkEntries crc32 deflate μ 0 (cqmMembers 4 s.content) = front ++ [zl])
+    (hz : ∀ z ∈ front ++ [zl], z.OK crc32 inflate) (hl : ∀ z ∈ front ++ [zl], z.LocalOK)
+    (h6 : (6 : UInt8) ∉ zl.name ++ zl.cextra) (hhdr : ∀ i, ¬ SigAt (cqmFileHeader s) i)
+    (k : Nat) (hk : k < (dumpCqm crc32 deflate μ s).length) :
+    ∃ e, cqmFileLoadTiled true 8 parseCqmHeader crc32 inflate parseExprHeader (fun d => (loadsJ d).isSome)
+      ((dumpCqm crc32 deflate μ s).take k) = .err e :=
+  cqmFileLoadTiled_cut crc32 inflate deflate μ s front zl hlen hsplit hz hl h6 hhdr k hk
+
+/-- non-vacuity: an archive whose only member's CONTENT is an end record (`PK\x05\x06` + 18 zero bytes: the payload the older
+    theorems exclude) meets every hypothesis; all of its proper prefixes are refused -/
+example : ∀ k, k < (([68, 73] : Bytes) ++ zipBytes 2 ([] ++ [ZEntry.mk [118] (eocdRecord 0 0 0) (eocdRecord 0 0 0) 0 0 20 20 0 0 0 22 22 [] [] 0 0])).length →
+    openTiledStrict (fun _ => 0) (fun _ => none) 2
+      ((([68, 73] : Bytes) ++ zipBytes 2 ([] ++ [ZEntry.mk [118] (eocdRecord 0 0 0) (eocdRecord 0 0 0) 0 0 20 20 0 0 0 22 22 [] [] 0 0])).take k) = none :=
+  fun k hk => truncation_safe_archive_any_payload (fun _ => 0) (fun _ => none) [68, 73] []
+    (ZEntry.mk [118] (eocdRecord 0 0 0) (eocdRecord 0 0 0) 0 0 20 20 0 0 0 22 22 [] [] 0 0)
+    (by intro z hz; simp only [List.nil_append, List.mem_singleton] at hz; subst hz; unfold ZEntry.OK; decide)
+    (by intro z hz; simp only [List.nil_append, List.mem_singleton] at hz; subst hz; decide)
+    (by decide) k hk
 
 end C10
